@@ -201,11 +201,15 @@ def run_variant(ck, variant, crate, exe, checker, seed, n, have_model):
 
 def run(pid, tier, seed, replay):
     ck = Check(pid, tier, seed, level="proof")
-    n = 1500 if tier == "quick" else 40000
+    n = 1500 if tier == "quick" else 20000
     ck.proof_step(extra_targets=["Model/C52Corr.vo"])
     have_model = os.path.exists(os.path.join(vlib.COQ, "Model/C52Corr.vo"))
     results = []
+    only = [v for v in os.environ.get("C52_VARIANTS", "").split(",") if v]   # e.g. C52_VARIANTS=sql (default: both builds)
     for variant, crate, exe, checker, _ in VARIANTS:
+        if only and variant not in only:
+            ck.notes.append("build %s skipped (C52_VARIANTS=%s)" % (variant, ",".join(only)))
+            continue
         r = run_variant(ck, variant, crate, exe, checker, seed, n, have_model)
         if r:
             results.append(r)
